@@ -9,7 +9,7 @@ use crate::Outcome;
 use glass_easel_stylesheet_compiler::{StyleSheetOptions, StyleSheetTransformer};
 
 const PIECES: &[&str] = &[".a", "/*c*/", " ", "{", "}", "color:red", ";", ":is(", ")", "calc(1px + ", "2px", "1rpx", ",", "#b", "[x]", "\n", "\u{1F600}", "width:", "@media (min-width:1px)", "\u{feff}"];
-const BOUND: &str = "all concatenations of <= 4 pieces from 20 directed pieces (selectors, comments, whitespace, blocks, calc, rpx, astral, a byte order mark), default options and prefix+rpx options; 60 :host rules (5 heads x 3 bodies x 4 surroundings) with conversion on, normal and low-priority output; plus 8 clause subsets x 3 separators x 2 trailers of @import under an import sign";
+const BOUND: &str = "all concatenations of <= 4 pieces from 20 directed pieces (selectors, comments, whitespace, blocks, calc, rpx, astral, a byte order mark), default options, prefix+rpx options and prefix+sign options (the sign comment points at its class name); 60 :host rules (5 heads x 3 bodies x 4 surroundings) with conversion on, normal and low-priority output; plus 8 clause subsets x 3 separators x 2 trailers of @import under an import sign";
 
 fn u16_to_byte(line: &str, col: usize) -> Option<usize> {
     let mut u = 0;
@@ -24,16 +24,18 @@ fn check(css: &str) -> Option<(String, String)> {
     const ALL: &[char] = &['@', '#', '{', '[', '(', ':', ',', ';'];
     // in the outputs of a :host conversion the selector `[wx-host="p"],[is="h"]` is synthesised: only characters that are always copied
     const HOST: &[char] = &['@', '#', '{', '(', ';'];
-    for k in 0..4 {
+    for k in 0..5 {
         let opts = match k {
             0 => StyleSheetOptions::default(),
             1 => StyleSheetOptions { class_prefix: Some("p".into()), rpx_ratio: 750., ..Default::default() },
+            4 => StyleSheetOptions { class_prefix: Some("p".into()), class_prefix_sign: Some("S".into()), rpx_ratio: 750., ..Default::default() },
             _ => StyleSheetOptions { class_prefix: Some("p".into()), rpx_ratio: 750., convert_host: true, host_is: Some("h".into()), ..Default::default() },
         };
-        if k >= 2 && !css.to_ascii_lowercase().contains("host") { continue; }
+        if (k == 2 || k == 3) && !css.to_ascii_lowercase().contains("host") { continue; }
+        if k == 4 && !css.contains('.') { continue; }
         let low = k == 3;
-        let copied = if k >= 2 { HOST } else { ALL };
-        let pick = |t: StyleSheetTransformer| { if k >= 2 { let (n, l) = t.output_and_low_priority_output(); if low { l } else { n } } else { t.output() } };
+        let copied = if k == 2 || k == 3 { HOST } else { ALL };
+        let pick = |t: StyleSheetTransformer| { if k == 2 || k == 3 { let (n, l) = t.output_and_low_priority_output(); if low { l } else { n } } else { t.output() } };
         let mut text = String::new();
         pick(StyleSheetTransformer::from_css("p.wxss", css, opts.clone())).write_str(&mut text).unwrap();
         let text16: Vec<u16> = text.encode_utf16().collect();
@@ -66,6 +68,14 @@ fn check(css: &str) -> Option<(String, String)> {
                 }
                 if copied.contains(&o) && sc != o {
                     return Some((format!("entry at generated column {} is {:?} in the output but the source at ({}, {}) reads {:?}", tk.get_dst_col(), o, tk.get_src_line(), tk.get_src_col(), rest.chars().take(12).collect::<String>()), "the same punctuation / at-keyword in the source".into()));
+                }
+            }
+            // the prefix-sign comment is synthesised by the rewrite of one class selector: it points at that class name
+            // (the identifier directly behind a `.`)
+            if k == 4 && text16.get(tk.get_dst_col() as usize..tk.get_dst_col() as usize + 5).map(|w| String::from_utf16_lossy(w)) == Some("/*S*/".to_string()) {
+                let after_dot = b > 0 && line.as_bytes()[b - 1] == b'.';
+                if !after_dot {
+                    return Some((format!("the prefix-sign comment at generated column {} points at source ({}, {}) = {:?}", tk.get_dst_col(), tk.get_src_line(), tk.get_src_col(), rest.chars().take(8).collect::<String>()), "the class name whose rewrite produced it".into()));
                 }
             }
             // a rewritten token (prefixed class, converted rpx length) carries the ORIGINAL spelling as its name: the
